@@ -651,7 +651,7 @@ def run_ledger(ctx, focus, res=None):
             if through_store:
                 # two competing blocks that spend one and the same output in different transactions, and more blocks on each
                 tip = tree.cs.current_chain_hash
-                sp_ = tree.spendable(tip)
+                sp_ = [(r, o) for r, o in tree.spendable(tip) if o.value >= 2]     # (zero-valued outputs exist below a horizon)
                 if sp_:
                     r_, o_ = sp_[-1]
                     u_ = tree.utxo(tip)
